@@ -29,7 +29,7 @@ def run(pid="all"):
                     hit = (pool["name"], res["violated"], res.get("depth"))
                     break
             expect(f"SmoothmathMC with {mut} = FALSE yields a counterexample", hit is not None, str(hit))
-        for mut in ("KeysFromSorted", "FoldOnlyOnce"):
+        for mut in ("KeysFromSorted", "FoldOnlyOnce", "ChildrenAsSet"):
             res = tlcrun.run("Determinism", f"Determinism_mut_{mut}.cfg", workers=4, timeout=300, expect_violation=True)
             expect(f"Determinism with {mut} = TRUE violates OrderInsensitive", bool(res["violated"]), str(res["violated"]))
         tsf = os.path.join(work, "rts.ndjson")
